@@ -730,6 +730,8 @@ impl<'a> Fx<'a> {
             let t = self.unify(&l.ty, &r.ty)?;
             if !(t.is_int() || t.is_big() || (t == Ty::Bool && matches!(b.op, Eq(_) | Ne(_)))) { return Err(format!("comparison on {:?}", t)); }
             if t == Ty::Lit && (l.k.is_none() || r.k.is_none()) { return Err("comparison of integers of unknown type".into()); }
+            // `0 != x` is `x != 0`: a literal on the left of `==` / `!=` is moved to the right (canonical spelling)
+            if matches!(b.op, Eq(_) | Ne(_)) && l.k.is_some() && r.k.is_none() { std::mem::swap(&mut l, &mut r); }
             let s = match b.op {
                 Lt(_) => format!("(decide ({} < {}))", l.s, r.s), Le(_) => format!("(decide ({} ≤ {}))", l.s, r.s),
                 Gt(_) => format!("(decide ({} > {}))", l.s, r.s), Ge(_) => format!("(decide ({} ≥ {}))", l.s, r.s),
